@@ -764,7 +764,7 @@ impl Model {
         };
         let cause_r = enc_r.has_cause().then(|| cause_restored(id));
         let cause_i = enc_i.has_cause().then(|| cause_invalid(id));
-        let mut fin = |m: &mut Model, result: ExpResult, unconstrained: Option<usize>, callbacks: Vec<ExpCallback>, path: String| {
+        let fin = |m: &mut Model, result: ExpResult, unconstrained: Option<usize>, callbacks: Vec<ExpCallback>, path: String| {
             let _ = m;
             Expectation {
                 result,
